@@ -51,7 +51,7 @@ default_node_mapper = alphabetic_node_mapper
 def alphabetic_source_mapper(network: Network) -> LabelMapping:
     current_source_labels = [b.id for b in network.branches if is_current_source(b.element)]
     voltage_source_labels = [b.id for b in network.branches if is_ideal_voltage_source(b.element)]
-    sorted_soruce_labels = sorted(current_source_labels+voltage_source_labels)
+    sorted_soruce_labels = sorted(current_source_labels)+sorted(voltage_source_labels)
     return LabelMapping({k: v for v, k in enumerate(sorted_soruce_labels)})
 
 def alphabetic_current_source_mapper(network: Network) -> LabelMapping:
